@@ -436,6 +436,16 @@ func (x *c12World) canon() string {
 	}
 	sort.Strings(b)
 	fmt.Fprintf(&sb, " left%v deaf%v read%v", b, x.deaf, x.canRead)
+	// the implementation's own chat table (for deduplication only): diverging states are expanded, not merged
+	for ci, c := range x.chats {
+		if len(c.id) == 4 {
+			var ms []string
+			for _, m := range x.wd.Srv.ChatMgr.Members([4]byte(c.id)) {
+				ms = append(ms, fmt.Sprintf("%x", m.ID[:]))
+			}
+			fmt.Fprintf(&sb, " impl-chat%d%v/%s", ci, ms, x.wd.Srv.ChatMgr.GetSubject([4]byte(c.id)))
+		}
+	}
 	return sb.String()
 }
 
